@@ -62,7 +62,7 @@ func entries() []entry {
 	return es
 }
 
-var sizes = []int{0, 1, 2, 3, 7, 511}
+var sizes = []int{0, 1, 2, 3, 7, 511, -1} // -1: an empty read (0, nil)
 
 const nSchedules = 6 // deviation mode, always 1, always 2, always 3, always 1 + EOF with data, always 7
 
@@ -102,7 +102,7 @@ func deliveryFamily(es []entry, maxDev int, budget time.Duration) mc.Family {
 	nVar := nSchedules * 2 * nShard
 	return mc.Family{
 		Name: "delivery-schedules", Items: len(es) * nVar, MaxDev: maxDev, Budget: budget,
-		Rule: fmt.Sprintf("%d corpus inputs (programs incl. eexec hex/binary, readstring, DSC, CheckStart; CMaps; the sample font in 4 formats; AFM files; PFB streams) x {explorer-decided delivery with <= %d deviations per execution from the default 'fill the buffer' — deviation = deliver 1,2,3,7,511 bytes or the last bytes together with io.EOF —, always 1 byte, always 2, always 3, always 1 with EOF attached, always 7} x {plain reader, seekable reader}; non-trivial = the delivery differed from a single full read (more than one Read call delivered data)", len(es), maxDev),
+		Rule: fmt.Sprintf("%d corpus inputs (programs incl. eexec hex/binary, readstring, DSC, CheckStart; CMaps; the sample font in 4 formats; AFM files; PFB streams) x {explorer-decided delivery with <= %d deviations per execution from the default 'fill the buffer' — deviation = deliver 1,2,3,7,511 bytes, nothing at all ((0, nil), which io.Reader permits) or the last bytes together with io.EOF —, always 1 byte, always 2, always 3, always 1 with EOF attached, always 7} x {plain reader, seekable reader}; non-trivial = the delivery differed from a single full read (more than one Read call delivered data)", len(es), maxDev),
 		Body: func(c *mc.Ctx, item int) mc.Verdict {
 			e := es[item/nVar]
 			shard := item % nShard
@@ -155,7 +155,7 @@ func deliveryFamily(es []entry, maxDev int, budget time.Duration) mc.Family {
 					n = 7
 				}
 				if c.Render() && len(trace) < 40 {
-					trace = append(trace, fmt.Sprintf("%d/%d", min(n, min(want, remaining)), want))
+					trace = append(trace, fmt.Sprintf("%d/%d", max(0, min(n, min(want, remaining))), want))
 				}
 				return n, eof
 			}
